@@ -162,6 +162,61 @@ fn c16_tuple_int_float() {
     }
 }
 
+// ------------------------------------------------------------------------------------------------
+// Tuples (group keys / DISTINCT rows: Vec<Value>) and ARRAY values with their elements in a *stack* array
+// (Vec::from_raw_parts inside ManuallyDrop: never dropped or grown).  With the elements on the heap CBMC treats
+// every element's variant as symbolic and walks the recursive Array arm of eq / cmp / hash on each of them (the two
+// harnesses above do not conclude); with the buffer on the stack the variants are constants.
+macro_rules! stack_values {
+    ($store:ident, $v:ident, $($e:expr),+) => {
+        let mut $store = ManuallyDrop::new([$($e),+]);
+        let $v: ManuallyDrop<Vec<Value>> = ManuallyDrop::new(unsafe { let n = $store.len(); Vec::from_raw_parts($store.as_mut_ptr(), n, n) });
+    };
+}
+
+fn tuple_laws(a: &Vec<Value>, b: &Vec<Value>) {
+    let c = a.cmp(b);
+    let eq = a == b;
+    assert!(eq == (c == Ordering::Equal), "C16-L1 tuple eq<=>cmp==Equal");
+    assert!(a.partial_cmp(b) == Some(c), "C16-L2 tuple partial_cmp==Some(cmp)");
+    assert!(b.cmp(a) == c.reverse(), "C16-L3 tuple antisymmetry");
+    assert!((b == a) == eq, "C16-L3 tuple eq symmetric");
+    if eq {
+        assert!(fnv_hash(a) == fnv_hash(b), "C16-L4 equal tuples hash equally (fnv)");
+    }
+}
+
+#[kani::proof]
+#[kani::unwind(10)]
+fn c16_tuple2_int_float() {
+    let (i1, i2): (i64, i64) = (kani::any(), kani::any());
+    let (f1, f2): (f64, f64) = (kani::any(), kani::any());
+    stack_values!(sa, a, Value::Int(i1), Value::Float(Float(f1)));
+    stack_values!(sb, b, Value::Int(i2), Value::Float(Float(f2)));
+    tuple_laws(&a, &b);
+    // the tuple order is lexicographic over the element order, tuple equality is element-wise
+    let e0 = sa[0].cmp(&sb[0]);
+    let e1 = sa[1].cmp(&sb[1]);
+    assert!(a.cmp(&b) == (if e0 != Ordering::Equal { e0 } else { e1 }), "C16 tuples are ordered lexicographically by their elements");
+    assert!((*a == *b) == (sa[0] == sb[0] && sa[1] == sb[1]), "C16 tuples are equal exactly when all elements are");
+    kani::cover!(*a == *b && f1.is_nan(), "tuple: equal with NaN reachable");
+    kani::cover!(i1 == i2 && a.cmp(&b) == Ordering::Less, "tuple: decided by second element reachable");
+}
+
+#[kani::proof]
+#[kani::unwind(10)]
+fn c16_tuple2_null_int() {
+    let (i1, i2): (i64, i64) = (kani::any(), kani::any());
+    stack_values!(sa, a, Value::Null, Value::Int(i1));
+    stack_values!(sb, b, Value::Null, Value::Int(i2));
+    tuple_laws(&a, &b);
+    assert!((*a == *b) == (i1 == i2), "C16 NULL equals NULL inside a tuple");
+    kani::cover!(*a == *b, "tuple: equal reachable");
+}
+
+// (ARRAY values with stack-held elements - array_pair_harness 1x1, 2x2, 1x2 - were tried the same way: no verdict in 1200 s,
+// the derived Value::cmp recurses through its Array arm to the unwinding bound.)
+
 #[cfg(test)]
 #[path = "/verif/.cache/playback/c16.rs"]
 mod playback_gen;
